@@ -753,17 +753,23 @@ func (q *Queue) storeNewMessage(meta *QueueMetadata, header textproto.Header, bo
 		return nil, err
 	}
 
-	if err := q.updateMetadataOnDisk(meta); err != nil {
+	// The meta-data file is what makes the message visible to the start-up
+	// scan: header and body must be on disk before it is.
+	if err := headerFile.Sync(); err != nil {
 		q.tryRemoveDanglingFile(id + ".body")
 		q.tryRemoveDanglingFile(id + ".header")
 		return nil, err
 	}
 
-	if err := headerFile.Sync(); err != nil {
+	if err := bodyFile.Sync(); err != nil {
+		q.tryRemoveDanglingFile(id + ".body")
+		q.tryRemoveDanglingFile(id + ".header")
 		return nil, err
 	}
 
-	if err := bodyFile.Sync(); err != nil {
+	if err := q.updateMetadataOnDisk(meta); err != nil {
+		q.tryRemoveDanglingFile(id + ".body")
+		q.tryRemoveDanglingFile(id + ".header")
 		return nil, err
 	}
 
